@@ -16,7 +16,7 @@ KEY_FLAGS = "temp-set-inherits-delete-failed"
 def classify(line):
     # known-findings.txt: a temporary set created by a restore session whose input pipe broke is not tracked and stays
     # in the kernel until the next periodic resync.  Needs: unrepaired tree, an injected fault seen as a failed write.
-    tags = line.get("tags", [])
+    tags = line.get("tags") or []
     if "tree:unrepaired" in tags and "leak-shape" in tags:
         return KEY_LEAK
     # second class: a set whose destroy was refused becomes desired again with other parameters; the temporary set that
